@@ -6,6 +6,7 @@ package vanguard
 
 import (
 	"errors"
+	"google.golang.org/genproto/googleapis/rpc/status"
 	"io"
 	"net/http"
 
@@ -798,10 +799,16 @@ func verifModel_google_golang_org_protobuf_encoding_protojson_MarshalOptions_Mar
 	return nil, nil
 }
 func verifModel_google_golang_org_protobuf_proto_Marshal(m proto.Message) ([]byte, error) {
+	if st, ok := m.(*status.Status); ok {
+		return statusMarshal(st), nil
+	}
 	verifOutside("proto.Marshal (protobuf reflection) is outside the encoding")
 	return nil, nil
 }
 func verifModel_google_golang_org_protobuf_proto_Unmarshal(b []byte, m proto.Message) error {
+	if st, ok := m.(*status.Status); ok {
+		return statusUnmarshal(b, st)
+	}
 	verifOutside("proto.Unmarshal (protobuf reflection) is outside the encoding")
 	return nil
 }
